@@ -267,7 +267,7 @@ func (c *Cluster) serve(sc *srvConn) {
 			e.hasScript = true
 			c.mu.Lock()
 		}
-		if !(e.hasScript && (len(e.scripted) >= 3 && e.scripted[:3] == "err" || e.scripted == "drop" || len(e.scripted) > 4 && e.scripted[:4] == "cut:")) {
+		if !(e.hasScript && (len(e.scripted) >= 3 && e.scripted[:3] == "err" || e.scripted == "drop")) {
 			c.holdIfNeeded(e)
 		}
 		c.mu.Unlock()
@@ -410,21 +410,14 @@ func (c *Cluster) Answer(e *Entry, alt string) {
 	if alt == "apply-drop" {
 		mode = ""
 	}
-	before := sc.srv.Written()
-	c.respond(e, mode)
 	if alt == "apply-drop" {
-		// the response was produced to apply side effects; it must not reach the client
-		sc.srv.LimitPeerReads(0)
-		c.finish(e, alt)
-		c.dropConn(sc)
-		c.mu.Unlock()
-		c.event()
-		return
+		// the response is produced to apply side effects; it must not reach the client
+		sc.srv.LimitPeerReadsAfter(0)
+	} else if cut >= 0 {
+		sc.srv.LimitPeerReadsAfter(cut) // set before writing: the client may be reading concurrently
 	}
-	if cut >= 0 {
-		// deliver only cut bytes of this response
-		unreadBefore := sc.srv.Unread() - (sc.srv.Written() - before)
-		sc.srv.LimitPeerReads(unreadBefore + cut)
+	c.respond(e, mode)
+	if alt == "apply-drop" || cut >= 0 {
 		c.finish(e, alt)
 		c.dropConn(sc)
 		c.mu.Unlock()
